@@ -482,6 +482,8 @@ def float_checks(seed, quick):
     tt = np.arange(400) / 400.0
     sig = np.sin(2 * np.pi * 7 * tt) + 0.5 * np.cos(2 * np.pi * 19 * tt + 0.3)
     sig_i = np.round(sig * 40).astype(np.int64) + 3           # integer-typed samples with a non-integer mean
+    sig_i[:7] += 1
+    assert abs(sig_i.mean() - round(sig_i.mean())) > 1e-3
     for p, q, pts_ in ((3, 1, 10), (1, 2, 10), (3, 7, 10), (10, 4, 10), (4, 3, 10), (5, 3, 10), (7, 4, 10), (5, 4, 10), (3, 2, 7), (5, 2, 9), (3, 2, 10)):
         r, tn = dsp.resample(sig, p, q, t=tt, pts=pts_)
         ev += 1
